@@ -204,6 +204,58 @@ def r05c(ctx):
             ctx.report("R05c", m, nd, f"{nm} = {p!r}", "the blank splitter no longer isolates exactly the runs of U+0020")
 
 
+def r05h(ctx):
+    """`$` is not the end of the string.
+
+    In Python `$` also matches just before a final line break.  The white-space encoder handles line breaks as content (they become
+    text:line-break later in the pipeline), so a pattern that cuts "the blanks at the end" with `$` from a chunk such as "a \\n" takes the
+    line break with it.  The encoder's own `^ +$` is harmless only because it is applied, with match(), to the pieces produced by the blank
+    splitter, which are either all blanks or hold none.  Rule: in paragraph.py a compiled pattern that contains `$` is used only through
+    match()/fullmatch() on an item of the list the blank splitter produced; any other use (search, sub, split, findall on a text) is
+    reported — `\\Z` is the end of the string.
+    """
+    import re._parser as sp  # type: ignore
+    repo = ctx.repo
+    ctx.rule("R05h", "a pattern anchored with `$` is applied only by match() to pieces of the blank splitter (otherwise `$` skips a final line break)", floor=1)
+    m = repo.module("paragraph")
+    dollar = {}
+    for nm, node in m.assigns.items():
+        if isinstance(node, ast.Call) and call_name(node) == "compile" and node.args:
+            pat = repo.fold(node.args[0], m)
+            if isinstance(pat, str):
+                try:
+                    items = str(sp.parse(pat))
+                except Exception:  # noqa: BLE001
+                    continue
+                if "AT_END" in items and "AT_END_STRING" not in items.replace("AT_END_STRING", "") or ("AT_END" in items.replace("AT_END_STRING", "")):
+                    dollar[nm] = pat
+    n = 0
+    for f in m.all_funcs:
+        # lists produced by a split of the blank splitter
+        pieces = {a.targets[0].id for a in walk_no_nested(f.node) if isinstance(a, ast.Assign) and isinstance(a.targets[0], ast.Name)
+                  and any(isinstance(c, ast.Call) and isinstance(c.func, ast.Attribute) and c.func.attr == "split" for c in ast.walk(a.value))}
+        items = set()
+        for a in walk_no_nested(f.node):
+            if isinstance(a, ast.Assign) and isinstance(a.targets[0], ast.Name) and isinstance(a.value, ast.Subscript) and isinstance(a.value.value, ast.Name) and a.value.value.id in pieces:
+                items.add(a.targets[0].id)
+            if isinstance(a, ast.For) and isinstance(a.target, ast.Name) and any(isinstance(x, ast.Name) and x.id in pieces for x in ast.walk(a.iter)):
+                items.add(a.target.id)
+        for c in walk_no_nested(f.node):
+            if isinstance(c, ast.Call) and isinstance(c.func, ast.Attribute) and isinstance(c.func.value, ast.Name) and c.func.value.id in dollar:
+                n += 1
+                subj = c.args[0] if c.args else None
+                ok = c.func.attr in ("match", "fullmatch") and isinstance(subj, ast.Name) and subj.id in items
+                ctx.instance("R05h", f"{f.file}:{f.ident}", f"`{norm(c, 40)}` ({dollar[c.func.value.id]!r}): " + ("match() on a piece of the splitter" if ok else "applied to a text that may end in a line break"),
+                             ok=ok, nontrivial=True, line=c.lineno)
+                if not ok:
+                    ctx.report("R05h", f, c, f"{norm(c, 50)} with {dollar[c.func.value.id]!r}",
+                               f"{f.ident} applies the `$`-anchored pattern {dollar[c.func.value.id]!r} with .{c.func.attr}() to `{norm(subj, 20) if subj is not None else '?'}`: `$` also matches before a "
+                               f"final line break, so for a chunk like 'a \\n' the cut takes the line break with the blanks and the text loses it")
+    if n == 0:
+        ctx.note("R05h: no `$`-anchored pattern in use in paragraph.py")
+        ctx.rules["R05h"].floor = 0
+
+
 def r05d(ctx):
     repo = ctx.repo
     ctx.rule("R05d", "inner_text = own text, then each child's str() and tail, in document order", floor=2)
@@ -265,6 +317,20 @@ def r05f(ctx):
                                    f"did not think of) stays raw in the XML, where any consumer collapses it — the text that is read back by other applications differs")
     if n == 0:
         raise AnalysisError("R05f: no text store found in the constructors of the paragraph-like classes")
+    # … and whenever there is text: the test in front of the encoder call looks at the text as it is (truth, type, the formatted flag), not at a rewritten copy —
+    # `if text.strip():` drops a heading that is " " or a line break
+    from .c14 import _lossy_call
+    for cname in ("Paragraph", "Header", "Span"):
+        c = repo.cls(cname)
+        for f in c.methods.get("__init__", []):
+            for call in [x for x in walk_no_nested(f.node) if isinstance(x, ast.Call) and call_name(x) in ("append_plain_text", "append")]:
+                from ..paths import structural_guards
+                lossy = [x for t, _pol in structural_guards(call, stop=f.node) for x in ast.walk(t) if isinstance(x, ast.Call) and _lossy_call(x)]
+                ctx.instance("R05f", f"{f.file}:{f.ident}", f"`{norm(call, 40)}` is guarded by tests on the text as given", ok=not lossy, nontrivial=True, line=call.lineno)
+                for x in lossy[:1]:
+                    ctx.report("R05f", f, x, f"{norm(x, 40)} decides whether {norm(call, 30)} runs",
+                               f"{c.name}.__init__ hands the text to the encoder only when `{norm(x, 40)}` is true: text made of blanks, tabs or line breaks only is dropped although it is "
+                               f"text (\" \" must come back as \" \")")
 
 
 def r05g(ctx):
@@ -295,13 +361,28 @@ def r05g(ctx):
 
 
 def run(ctx):
-    r05a(ctx)
+    # R05a reads one particular shape of the encoder; when the encoder is rewritten beyond it, the other clauses are still evaluated first so that a
+    # definite violation is reported as such (main turns "violations, then analysis error" into exit 1 with an ANALYSIS-INCOMPLETE line)
+    pending = None
+    try:
+        r05a(ctx)
+    except AnalysisError as e:
+        pending = e
+    try:
+        _rest(ctx)
+    finally:
+        if pending is not None:
+            raise pending
+
+
+def _rest(ctx):
     r05b(ctx)
     r05c(ctx)
     r05d(ctx)
     r05e(ctx)
     r05f(ctx)
     r05g(ctx)
+    r05h(ctx)
     # every chunk of Paragraph(text) goes through Element.append: a substitution there that touches more than U+0020 changes the text (part of a rule shared with C16)
     from .c16 import r16i
     r16i(ctx, children=False)
@@ -313,6 +394,10 @@ from ..selftest import Seed, unparse_seed  # noqa: E402
 _P = "src/odfdo/paragraph.py"
 _PB = "src/odfdo/paragraph_base.py"
 SEEDS = [
+    Seed("Header constructor skips a title made of white space", "fault", "src/odfdo/header.py", "            if text:\n", "            if text and text.strip():\n", "R05f"),
+    Seed("closing blanks cut with a $-anchored search", "fault", _P, '_re_only_spaces = re.compile("^ +$")\n', '_re_only_spaces = re.compile("^ +$")\n_re_closing_spaces = re.compile(" +$")\n', "R05h",
+         edits=[(_P, "        result: list[Element | str] = []\n        content = [x for x in _re_spaces_split.split(text) if x]\n",
+                 "        result: list[Element | str] = []\n        closing = _re_closing_spaces.search(text)\n        if closing and closing.start() > 0 and closing.end() < 0:\n            text = text[: closing.start()]\n        content = [x for x in _re_spaces_split.split(text) if x]\n")]),
     Seed("inner run keeps its full length besides the literal blank", "fault", _P, "                    spacer = Spacer(len(item) - 1)\n", "                    spacer = Spacer(len(item))\n", "R05a"),
     Seed("last run encoded one short", "fault", _P, "                    spacer = Spacer(len(last_item))\n", "                    spacer = Spacer(len(last_item) - 1)\n", "R05a"),
     Seed("inner run emits two literal blanks", "fault", _P, '                    _merge_text(" ")\n                    result.append(spacer)', '                    _merge_text("  ")\n                    result.append(spacer)', "R05a"),
